@@ -30,7 +30,7 @@ CANNOT = ['spellings outside the generator (e.g. identifiers using XID character
 
 
 def ascii_fold(b):
-    return b.decode('utf-8', 'replace').replace('K', 'k').replace('İ', 'i').encode('utf-8')
+    return b.decode('utf-8', 'replace').replace('\u212a', 'k').replace('\u0130', 'i').encode('utf-8')
 
 
 def search(rundir, tier, seed, log, only):
@@ -41,6 +41,9 @@ def search(rundir, tier, seed, log, only):
         cases = [{'text': only['input'], 'exp': sp.get('expected_tree'), 'tag': 'replay', 'group': None, 'cls': None}]
     else:
         cases = pc.gen_search.c03_cases(**SIZES[tier])
+        for d in pc.corpus('C03'):
+            if d.get('expected_tree') or d.get('must_reject'):
+                cases.append({'text': d['_bytes'], 'exp': d.get('expected_tree'), 'tag': 'corpus-file', 'group': None, 'cls': None})
     inputs = [c['text'] for c in cases]
     out = pc.run_go(rundir, '-c03', inputs, 'c03')
     if len(out) != len(inputs):
@@ -87,7 +90,7 @@ def search(rundir, tier, seed, log, only):
         elif len(samples) < 6 and i % 1499 == 7:
             samples.append({'leg': 'search', 'generator': c['tag'], 'input': pc.show(c['text']), 'expected_tree': exp, 'observed': o[:500]})
     # class predicate of the listed finding: the input contains U+212A / U+0130 and is treated exactly like its ASCII folding
-    cand = [f for f in failures if ('K' in bytes.fromhex(f['hex']).decode('utf-8', 'replace') or 'İ' in bytes.fromhex(f['hex']).decode('utf-8', 'replace'))]
+    cand = [f for f in failures if ('\u212a' in bytes.fromhex(f['hex']).decode('utf-8', 'replace') or '\u0130' in bytes.fromhex(f['hex']).decode('utf-8', 'replace'))]
     if cand:
         folded = pc.run_go(rundir, '-c03', [ascii_fold(bytes.fromhex(f['hex'])) for f in cand], 'c03_fold')
         for f, fo in zip(cand, folded):
